@@ -34,7 +34,9 @@ def _make_relational_func(
             return sc.Stairs._new(
                 initial_value=initial_value,
                 data=None,
-                closed=other.closed if np.isnan(self.initial_value) else self.closed,
+                closed=other.closed
+                if (self._data is None and other._data is not None)
+                else self.closed,
             )
         elif self._data is None or other._data is None:
             if other._data is None:  # self._data exists
@@ -54,7 +56,7 @@ def _make_relational_func(
                     {"value": new_values * 1},
                     index=new_index,
                 ),
-                closed=self.closed,
+                closed=self.closed if self._data is not None else other.closed,
             )
             new_instance._remove_redundant_step_points()
             return new_instance
